@@ -44,6 +44,16 @@ Theorem C12_no_internal_error : forall fa c u base f d,
   0 <= c <= u -> u - c <= fused_to_plasma fa -> enough_plasma fa c u base f d <> PPanic.
 Proof. exact enough_plasma_no_panic. Qed.
 
+(* the base cost: a plain transfer pays 21000 + 68 per data byte (at most MaxDataLength bytes), every embedded
+   method (table dumped from /repo on every run) costs between 2.5 transfers and the per-block cap *)
+Theorem C12_base_cost_transfer : forall len b,
+  0 <= len -> base_plasma false false false 0 len = BOk b ->
+  len <= MaxDataLength /\ b = AccountBlockBasePlasma + ABByteDataPlasma * len.
+Proof. exact base_plasma_transfer. Qed.
+Theorem C12_base_cost_method : forall key len b,
+  base_plasma false true true key len = BOk b -> EmbeddedSimplePlasma <= b <= MaxPlasmaForAccountBlock.
+Proof. exact base_plasma_method. Qed.
+
 (* record of finding F1 (fixed in /repo): the int64 cast broke the threshold from 2^63 on *)
 Theorem C12_int64cast_refuted :
   exists d, 1 <= d < two64 /\ target_value_int64cast d <> two64 - two64 / d.
